@@ -10,6 +10,8 @@
 package verifrt
 
 import (
+	"strings"
+	"os"
 	"bytes"
 	"cmp"
 	"fmt"
@@ -179,9 +181,16 @@ func pre(kind string, obj any) {
 	}
 	g := s.cur()
 	s.mu.Lock()
-	if g.state == blocked {
-		// woke up inside uninstrumented code and ran to here without the token
+	if g.state == blocked && !s.dying {
+		// woke up inside uninstrumented code and ran to here without the token (not counted during the
+		// tear-down of a finished run, when every goroutine is released at once)
 		s.Stray++
+		if os.Getenv("VERIF_STRAY_DEBUG") != "" {
+			s.Probes["stray:"+g.kind+"->"+kind]++
+			if s.Probes["stray:"+g.kind+"->"+kind] == 1 {
+				fmt.Fprintf(os.Stderr, "STRAY %s->%s goroutine %s\n%s\n", g.kind, kind, g.id, debug.Stack())
+			}
+		}
 	}
 	s.mu.Unlock()
 	s.park(g, kind, obj)
@@ -282,6 +291,22 @@ func Run(cfg Config, main func()) *Sched {
 		for _, g := range s.all {
 			if g.state == running {
 				g.state = blocked // granted the token and now durably blocked in a real operation
+				if os.Getenv("VERIF_STRAY_DEBUG") == "2" && g.kind == "post:select" && s.Probes["dbg:blocked-after-post-select"] < 3 {
+					s.Probes["dbg:blocked-after-post-select"]++
+					var id int64
+					for k, v := range s.byGoid {
+						if v == g {
+							id = k
+						}
+					}
+					buf := make([]byte, 4<<20)
+					n := runtime.Stack(buf, true)
+					for _, blk := range strings.Split(string(buf[:n]), "\n\n") {
+						if strings.HasPrefix(blk, fmt.Sprintf("goroutine %d ", id)) {
+							fmt.Fprintf(os.Stderr, "BLOCKED-AFTER-POST-SELECT %s\n%s\n\n", g.id, blk)
+						}
+					}
+				}
 			}
 			if s.runnable(g, now) {
 				rs = append(rs, g)
